@@ -482,6 +482,9 @@ def check_requires(ctx, prog, reqs, site=None):
                     b_ = (a_[0], sl_.expand(a_[1]), sl_.expand(a_[2]))
                     if b_ != a_:
                         fs_.append((b_, t_))
+                elif a_[0] == "variant" and any(z_[0] == "call" and z_[1].endswith("::next") for z_ in walk(a_[1])):
+                    # an iteration of a loop: the iterator's origin (`Range{start: 0, end: ..}`, `into_iter(&self.x)`) is part of the fact
+                    fs_.append((("variant", ("opaque", origin_text(sl_, a_[1])), a_[2]), t_))
             if not any_fact(rq[1], fs_, f):
                 probs.append("site no longer dominated by /%s/ (facts here: %s)" % (rq[1], "; ".join(show_fact(x) for x in fl.facts_at(site.bb))[:200]))
             continue
